@@ -48,7 +48,7 @@ CONFIG = {
         "level_note": ("Trusted: CPython sys.settrace semantics; NumPy/SciPy/Dask/astropy calls are atomic between "
                        "crash points; the snapshot function (sim/snapshot.py). Sampled, not exhaustive, over "
                        "histories; exhaustive over line-level crash points of each tested step up to the cap."),
-        "quick_runs": 900,
+        "quick_runs": 1800,
         "thorough_runs": 40000,
         "quick_wall_cap": 240,
         "thorough_wall_cap": 3000,
@@ -93,13 +93,14 @@ NOT_APPLICABLE = {
     "C18": "integer functions memoised by lru_cache under CPython's own lock; neither call history nor caller threads can change a result",
     "C19": "real_to_complex is a pure array map (the reader path that depends on it is checked in C11 against an independent conversion)",
     "C20": "equality with a reference DFT and STFT labelling are functions of the input; the lazy-on-Dask clause is a C09 operation",
-    "C11": "PENDING: claimed in DESIGN.md, Engine B under construction in this commit",
 }
 
 MANIFEST_TEXT = {
     "engines": [
         {"name": "A", "path": "sim/dasksim.py (scheduler), sim/c09.py (scenario)", "serves_properties": ["C09"],
          "kind_free_text": "simulated Dask cluster: the real dask.local.get_async state machine driven by a simulated executor (tape-chosen completion order, worker count, chunksize, shared/pickled/mixed transport, abort and task-failure faults) plus a free-order graph walker; NumPy twin as reference model; sentinel sources and a default-scheduler tripwire for laziness"},
+        {"name": "B", "path": "sim/sched.py (baton scheduler), sim/linemon.py (line events), sim/iosim.py (I/O seam), sim/files.py (files + reference model), sim/c11.py (scenarios)", "serves_properties": ["C11"],
+         "kind_free_text": "simulated caller threads: real threads of which exactly one runs, pre-empted at every line event of pulsarbat/readers and utils code (sys.monitoring) and at every open/seek/read/close through a proxy for the module attribute `baseband`; injected I/O errors and killed callers; per-file in-memory reference model; Dask reads computed under Engine A inside the caller thread"},
         {"name": "C", "path": "sim/heapsim.py", "serves_properties": ["C14"],
          "kind_free_text": "shared-heap crash-point simulator: seeded call histories over caller-owned buffers, exception injection at every line event of pulsarbat frames via sys.settrace, byte-exact snapshot oracle"},
     ],
@@ -121,7 +122,7 @@ CONFIG["C11"] = {
                    "documented axis/sideband rules, cross-checked against the arrays the check wrote); dependency code is "
                    "atomic between yield points; Hilbert-path values compared with an independent O(N^2) long-double "
                    "DFT within 64 eps(float32) log2(N) max|x|."),
-    "quick_runs": 2400,
+    "quick_runs": 7000,
     "thorough_runs": 60000,
     "quick_wall_cap": 400,
     "thorough_wall_cap": 3000,
